@@ -10,7 +10,7 @@ func propTiers(id string) (tierConf, tierConf) {
 	case "C02":
 		return tierConf{Runs: 50000, BudgetS: 60, ShrinkS: 60, DetRuns: 24}, tierConf{Runs: 5_000_000, BudgetS: 900, ShrinkS: 180, DetRuns: 100}
 	case "C14":
-		return tierConf{Runs: 30000, BudgetS: 75, ShrinkS: 30, DetRuns: 32}, tierConf{Runs: 2_000_000, BudgetS: 900, ShrinkS: 120, DetRuns: 200}
+		return tierConf{Runs: 30000, BudgetS: 110, ShrinkS: 30, DetRuns: 32}, tierConf{Runs: 2_000_000, BudgetS: 900, ShrinkS: 120, DetRuns: 200}
 	case "C15":
 		return tierConf{Runs: 800000, BudgetS: 60, ShrinkS: 30, DetRuns: 32}, tierConf{Runs: 20_000_000, BudgetS: 900, ShrinkS: 120, DetRuns: 200}
 	case "C16":
